@@ -172,7 +172,8 @@ def explore(ctx):
             k = rng.choice(['a', 'b', 'key', 'k2', 'x.y', 'ü'])
             form = rng.random()
             if form < 0.5:
-                v = rng.choice(['1', '-5', '2.5', 'true', 'false', 'word', 'a/b', '1e3', '007', 'x:y', 'é', '9007199254740993', '9223372036854775807', '-9223372036854775808', '18446744073709551615', '1700000000123456789'])
+                v = rng.choice(['1', '-5', '2.5', 'true', 'false', 'word', 'a/b', '1e3', '007', 'x:y', 'é', '9007199254740993', '9223372036854775807', '-9223372036854775808', '18446744073709551615', '1700000000123456789',
+                                '.25', '-.5', '5.', '+8', '+.5', '-0', '0.0', '1E3', '1e-3', '00', '-', '+', '.', 'e5', '1e', 'TRUE', 'True', 't', 'f', 'yes', '0x10', '1_000', '٣'])
                 pairs.append((k, v, v))
             elif form < 0.85:
                 raw = rng.choice(['two words', '', 'say \\"hi\\"', 'a=b', ' padded ', '10', 'tab\there'])
